@@ -9,7 +9,7 @@ META = {
                   "isap _rekey/_encrypt/_mac (static, via the translation units)"],
     "bounds": "shape (algorithm, AD length, plaintext length, back end) concrete per query; key, nonce, AD, plaintext symbolic; ISAP runs "
               "~280-320 permutation calls per message, all abstracted (transcript form); key persistence from an ARBITRARY pre-computed key object",
-    "outside": "lengths outside the grid",
+    "outside": "lengths outside the grid, in particular payloads of 2^32 bytes and more (seed C06-2, a length narrowed to `unsigned` in a static SIV helper, is not detected)",
     "assumptions": ["transcript form composed with C08", "ISAP-A-80PQ is not in the ISAP v2.0 document; the model is the same scheme with k=160 as the property states"],
     "explanation": "lock-step transcript equivalence",
 }
